@@ -37,40 +37,56 @@ Definition chk_parse (c : list token * Z * re) : bool :=
   end.
 
 (* --- matcher ----------------------------------------------------------------- *)
-(* valid_next_symbols() as numbers: symbol s -> s (>= 1), WILDCARD -> 0,
-   END_OF_SEQUENCE -> -1 *)
-Definition label_code (l : label) : Z :=
-  match l with LSym s => s | LAny => 0 | LEos => -1 end.
+(* An observation of a Matcher object is one number:
+     is_complete() + 2 * (the match_symbol call that led here returned True)
+     + 4 * (bit set of valid_next_symbols(): END_OF_SEQUENCE 1, WILDCARD 2, symbol s 2^(s+1))
+   Observations are listed in pre-order: for a `tree` plan (depth d >= 1, alphabet) the
+   Matcher is copied and advanced with every symbol of the alphabet, recursively d
+   deep; for a `chain` plan (depth 0) the symbols are fed one after the other. *)
+Definition label_bit (l : label) : Z :=
+  match l with LEos => 1 | LAny => 2 | LSym s => Z.shiftl 4 (s - 1) end.
 
-Definition zmem (x : Z) (l : list Z) : bool := existsb (Z.eqb x) l.
-Definition zset_eqb (a b : list Z) : bool := forallb (fun x => zmem x b) a && forallb (fun x => zmem x a) b.
+Definition vn_mask (m : matcher) : Z :=
+  fold_left (fun acc l => Z.lor acc (label_bit l)) (valid_next m) 0.
 
-(* what was observed on a Matcher: is_complete(), valid_next_symbols(), and for
-   some symbols: the result of match_symbol on a copy and the observation
-   after it *)
-Inductive obs := O (complete : bool) (vn : list Z) (kids : list (sym * bool * obs)).
+Definition node_code (ok : bool) (m : matcher) : Z :=
+  (if is_complete m then 1 else 0) + (if ok then 2 else 0) + 4 * vn_mask m.
 
-Definition T := true.
-Definition F := false.
-
-Fixpoint chk_obs (m : matcher) (o : obs) {struct o} : bool :=
-  match o with
-  | O c vn kids =>
-    Bool.eqb c (is_complete m)
-    && zset_eqb vn (map label_code (valid_next m))
-    && (fix go (ks : list (sym * bool * obs)) : bool :=
-          match ks with
-          | [] => true
-          | (s, ok, o') :: ks' =>
-            (let (ok', m') := match_symbol m s in Bool.eqb ok ok' && chk_obs m' o') && go ks'
-          end) kids
+Fixpoint tree_codes (depth : nat) (alpha : list sym) (ok : bool) (m : matcher) : list Z :=
+  node_code ok m ::
+  match depth with
+  | O => []
+  | S d => flat_map (fun s => let (ok', m') := match_symbol m s in tree_codes d alpha ok' m') alpha
   end.
 
-Definition chk_matcher (mode : eps_mode) (c : list token * obs) : bool :=
+Fixpoint chain_codes (seq : list sym) (ok : bool) (m : matcher) : list Z :=
+  node_code ok m ::
+  match seq with
+  | [] => []
+  | s :: t => let (ok', m') := match_symbol m s in chain_codes t ok' m'
+  end.
+
+Definition plan_codes (m : matcher) (depth : nat) (syms : list sym) : list Z :=
+  match depth with
+  | O => chain_codes syms true m
+  | _ => tree_codes depth syms true m
+  end.
+
+Definition zlist_eqb' : list Z -> list Z -> bool :=
+  fix go a b := match a, b with
+                | [], [] => true
+                | x :: a', y :: b' => Z.eqb x y && go a' b'
+                | _, _ => false
+                end.
+
+(* (tokens, [(depth, symbols, observations of the implementation)]) *)
+Definition chk_matcher (mode : eps_mode) (c : list token * list (nat * list sym * list Z)) : bool :=
   match c with
-  | (toks, o) =>
+  | (toks, plans) =>
     match parse_regex toks with
-    | inr r => chk_obs (new_matcher mode r) o
+    | inr r =>
+      let m := new_matcher mode r in
+      forallb (fun p => match p with (d, syms, codes) => zlist_eqb' codes (plan_codes m d syms) end) plans
     | inl _ => false
     end
   end.
